@@ -1161,6 +1161,15 @@ func GenGERBlock(m *GERModel, seed uint64, gap int, allowRemove bool) MBlock {
 	gerOf := func(idx uint32) common.Hash { return keccakBytes([]byte("ger"), []byte{byte(idx), byte(idx >> 8)}) }
 	switch k := r.Intn(10); {
 	case k < 2:
+	case len(present) > 0 && r.Bool(15):
+		// the same GER reported again in a later block (the FEP downloader reports the greatest injected GER on
+		// every block): a second row for a GER that already has one
+		pr := present[r.Intn(len(present))]
+		if r.Bool(50) {
+			b.Events = []any{&lastgersync.Event{GERInfo: &lastgersync.GlobalExitRootInfo{GlobalExitRoot: pr.GER, L1InfoTreeIndex: pr.Index}}}
+		} else {
+			b.Events = []any{&lastgersync.Event{GEREvent: &lastgersync.GEREvent{BlockNum: num, GlobalExitRoot: pr.GER, L1InfoTreeIndex: pr.Index}}}
+		}
 	case k < 8 || len(present) == 0 || !allowRemove:
 		idx := uint32(r.Intn(24))
 		for t := 0; used[idx] && t < 40; t++ {
